@@ -48,9 +48,14 @@ def iter_programs(spec, prop):
         cnt = 0
         for d in spec['depths']:
             srcs = programs.SOURCES if d < 3 else DEPTH3_SOURCES
+            # depth 3 (alphabet^3 x sources, some 12 million programs since
+            # the alphabet has ~135 operations) is a seed-dependent 1/8 sample:
+            # all of it over eight seeds
+            stride = 8 if d >= 3 else 1
             for prog in programs.exhaustive(d, srcs):
                 cnt += 1
-                if cnt % spec['mod'] == spec['rem']:
+                if cnt % spec['mod'] == spec['rem'] and \
+                        (cnt // spec['mod']) % stride == spec['seed'] % stride:
                     yield prog
     elif spec['what'] == 'large':
         rng = rng_for(spec['seed'], prop, 'large')     # same plan in every shard
